@@ -22,7 +22,7 @@ RULE = (
     "{1-D, 2-D C / Fortran order, with extra coordinate, integer dtype for both or one coordinate} x dyadic scale/offset frames; in each case every node of the quarter-unit lattice over the "
     "region plus one block on every side is labelled and compared with exact rational block edges (edge points: either neighbour; "
     "outside points: clamped per axis). Non-trivial: at least two blocks and one point strictly inside some block."
-    " Added axes: Fortran and integer forms, points 1e-3 ... 1e-9 block widths beside every internal edge (guard band 64 ulp), degenerate inferred regions, frames 2^-30 and (2^-10, 2^20), numpy-array arguments, 120 000 ... 240 000 blocks, staggered 2-D grids."
+    " Added axes: Fortran and integer forms, points 1e-3 ... 1e-9 block widths beside every internal edge (guard band 64 ulp), degenerate inferred regions, frames 2^-30 and (2^-10, 2^20), numpy-array arguments, 120 000 ... 240 000 blocks, 60 000 ... 262 145 points, staggered 2-D grids."
 )
 ASSUMPTIONS = ["lattice and block edges are rational; float evaluation of a strict-inside test cannot flip because a lattice "
                "point is either exactly on an edge or at least 1/48 of a unit away from it"]
@@ -64,6 +64,9 @@ def _cases(tier, seed):
     # more than 100 000 blocks in non-square layouts (seed C08-12: another search path for very many blocks)
     for spec in (dict(shape=[250, 500]), dict(shape=[500, 250]), dict(spacing=0.1), dict(shape=[1, 150000]), dict(shape=[120001, 1])):
         yield dict(many=True, spec=spec)
+    # very many POINTS on a small layout (round 8, seed C09-16: labels computed chunk by chunk with the last partial chunk left at 0)
+    for npts in (60000, 130001, 262145):
+        yield dict(manypoints=npts)
     for fr in _frames(tier, seed):
         for spec in SPECS:
             for adjust in ("spacing", "region"):
@@ -91,6 +94,30 @@ def _lattice(lo, hi, pad):
 def run(case, rec):
     import verde as vd
 
+    if case.get("manypoints"):
+        npts = case["manypoints"]
+        region = [0.0, 8.0, 0.0, 3.0]
+        i = np.arange(npts, dtype=float)
+        east = 8.0 * np.modf(i * 0.6180339887498949)[0]
+        north = 3.0 * np.modf(i * 0.7548776662466927)[0]
+        got = call(rec, vd.block_split, (east, north), region=region, shape=(3, 8))
+        if raised(got):
+            return rec.check(False, "block_split raised %r" % (got,))
+        (bce, bcn), labels = got
+        labels = np.asarray(labels)
+        if not rec.check(labels.shape == (npts,), "expected %d labels, got %s" % (npts, labels.shape)):
+            return
+        # unit blocks on integer edges: the exact block of a point is (floor(north), floor(east)); points within 1e-9 of an edge may take either side
+        fe, fn = np.floor(east), np.floor(north)
+        clear = (np.abs(east - np.round(east)) > 1e-9) & (np.abs(north - np.round(north)) > 1e-9)
+        want = (fn * 8 + fe).astype(int)
+        wrong = np.nonzero(clear & (labels.astype(int) != want))[0]
+        rec.check(wrong.size == 0, "%d points: %d points strictly inside a block got another label, first at index %d: (%r, %r) labelled %d instead of %d"
+                  % ((npts, wrong.size) + ((int(wrong[0]), float(east[wrong[0]]), float(north[wrong[0]]), int(labels[wrong[0]]), int(want[wrong[0]])) if wrong.size else (0, 0.0, 0.0, 0, 0))))
+        rec.count("points_labelled", npts)
+        rec.count("points_strictly_inside_one_block", int(clear.sum()))
+        rec.cls("many-points")
+        return
     if case.get("many"):
         spec = case["spec"]
         region = [0.0, 80.0, 0.0, 30.0]
